@@ -25,7 +25,7 @@ RULE = (
     "slices are consecutive, disjoint, each <= chunksize rows, their union is [0,n) exactly once; passes == 1, or 2 "
     "iff centres are generated; no request covers more than chunksize rows when n > chunksize; Parquet: row groups "
     "in order, none twice per pass, buffered rows < chunksize + largest row group. Non-trivial: n > chunksize "
-    "(more than one chunk). Reader objects (frame, HDF5, FITS, Parquet) reused over passes: every history of <= 2 (3) of {peek, loop left after 2 chunks, full pass, probe} must be followed by a complete pass. Distinct: the case tuple."
+    "(more than one chunk). Frame source also on the virtual pool with W=2,3 (chunk sizes that are no multiple of W). Reader objects (frame, HDF5, FITS, Parquet) reused over passes: every history of <= 2 (3) of {peek, loop left after 2 chunks, full pass, probe} must be followed by a complete pass. Distinct: the case tuple."
 )
 ASSUMPTIONS = [
     "requests are observed at the library's seam to the source object (slicing of the frame / dataset / FITS column, "
@@ -53,6 +53,9 @@ def cases(tier, seed):
                     out.append(dict(n=n, chunksize=cs, source="random", mode=mode))
     if tier == "thorough":
         out.append(dict(n=150_001, chunksize=65_536, source="random", mode="create"))
+    # parallel creation (virtual pool, submission order): the slices requested from the source obey the same rules
+    for n, cs, W, mode in itertools.product((7, 9), (2, 3, 4), (2, 3), ("centres", "ids", "create")):
+        out.append(dict(n=n, chunksize=cs, source="frame", mode=mode, W=W))
     # one reader object used for several passes: an abandoned pass or a probe must not shift the next pass
     ops = ("peek", "break2", "pass", "probe")
     for src, (n, cs) in itertools.product(("frame", "hdf", "fits", "pq2", "pqu"), ((5, 2), (7, 3), (4, 4))):
@@ -282,7 +285,22 @@ def run_case(case):
                 cols.pop("pid")
             df = pd.DataFrame(cols)
             df.index = np.arange(len(df)) * 3 + 5  # as left behind by df[mask]: labels are not positions
-            cat = Catalog.from_dataframe(d + "/cat", LogFrame(df, log), **kw)
+            if case.get("W"):
+                from vlib import vmp
+
+                vmp.install(workers=case["W"])
+                try:
+                    ex = vmp.execute(lambda: Catalog.from_dataframe(d + "/cat", LogFrame(df, log), **kw))
+                finally:
+                    vmp.uninstall()
+                    yawx.sequential()
+                if ex["verdict"] != "ok":
+                    raise RuntimeError(f"virtual pool: {ex['verdict']} {ex['deadlock']}")
+                if ex["exc"] is not None:
+                    raise ex["exc"]
+                cat = ex["value"]
+            else:
+                cat = Catalog.from_dataframe(d + "/cat", LogFrame(df, log), **kw)
         elif src == "random":
             from yaw.randoms import BoxRandoms
 
